@@ -542,18 +542,23 @@ func genC18(w *bufio.Writer, tier string, rng *rand.Rand) {
 	}
 	// long paths ending in a small random gadget (deep recursion, then branching), and hubs with
 	// hundreds of distinct and repeated successors
-	for k := 0; k < pick(tier, 2, 12); k++ {
+	for k := 0; k < pick(tier, 5, 20); k++ {
 		n := []int{70000, 66000, 140000}[k%3]
 		if !isThorough(tier) {
-			n = 70000 - k*3000
+			n = 66000 + k*1500
 		}
-		g := make([][]int, n+6)
+		gd := 4 + rng.Intn(8)
+		g := make([][]int, n+gd)
 		for v := 0; v < n; v++ {
 			g[v] = []int{v + 1}
 		}
-		for v := n; v < n+6; v++ {
-			for e := 0; e < 1+rng.Intn(3); e++ {
-				g[v] = append(g[v], n+rng.Intn(6))
+		for v := n; v < n+gd; v++ { // a small DAG-like gadget: edges to a few later nodes, some to earlier ones
+			for e := 0; e < 2+rng.Intn(2); e++ {
+				t := v + 1 + rng.Intn(3)
+				if t >= n+gd || rng.Intn(6) == 0 {
+					t = n + rng.Intn(gd)
+				}
+				g[v] = append(g[v], t)
 			}
 		}
 		gs := fmtIntss(g)
